@@ -90,12 +90,11 @@ harness!(c20_all_zero_dmin_b, 8, |s| {
 });
 
 // the complement: traces whose recorded prefix is not all-zero never panic (also C12)
-harness!(c20_from_trace_total, 8, |s| {
+fn from_trace_total(s: &mut Src, pj: usize) {
     let t = s.bits(7);
     let g1 = s.from(1, 7);
     let g2 = s.bits(7);
     let ev = [Offset::from(t), Offset::from(t + g1), Offset::from(t + g1 + g2)];
-    let pj = 1 + (s.bits(1) as usize);
     // the recorded prefix must not be all-zero: with prefix_jobs = 1 only adjacent gaps are
     // recorded (their minimum must be positive), otherwise the span of all three events
     assume(if pj == 1 { g2 >= 1 } else { g1 + g2 >= 1 });
@@ -104,12 +103,14 @@ harness!(c20_from_trace_total, 8, |s| {
     let n = c.number_arrivals(Duration::from(d));
     assert!(d == 0 || n >= 1);
     cover!(n >= 5, "5+ arrivals");
-});
+}
+harness!(c20_from_trace_total_1, 8, |s| { from_trace_total(s, 1); });
+harness!(c20_from_trace_total_2, 8, |s| { from_trace_total(s, 2); });
 
 pub fn register(t: &mut Table) {
     reg!(t;
         c20_total_fp, c20_total_fifo, c20_total_ros_timer_constrained, c20_total_ros_chain_dedicated, c20_total_rr,
-        c20_prefix_rbf_b, c20_all_zero_dmin_b, c20_from_trace_total,
+        c20_prefix_rbf_b, c20_all_zero_dmin_b, c20_from_trace_total_1, c20_from_trace_total_2,
     );
 }
 
